@@ -395,15 +395,22 @@ impl Bucket {
     /// Returns [`InvalidBucketConfig`] when `max`, `bytes_per_second`, or
     /// `refill_period` are non-positive, or when the configuration would refill
     /// less than one token per period.
+    ///
+    /// `refill_period` is used in whole milliseconds (a fractional part is dropped)
+    /// and must be shorter than `2^32` milliseconds.
     pub fn new(
         max: i64,
         bytes_per_second: i64,
         refill_period: time::Duration,
     ) -> Result<Self, InvalidBucketConfig> {
-        // milliseconds is the tokio timer resolution
-        let refill = bytes_per_second.saturating_mul(refill_period.as_millis() as i64) / 1000;
+        // Milliseconds is the tokio timer resolution: the period is used in whole
+        // milliseconds everywhere (a period that is cut in one place but not in another makes
+        // the refill epoch drift), and its millisecond count must fit the `u32` arithmetic
+        // in `update_state` without being truncated.
+        let period_millis = u32::try_from(refill_period.as_millis()).unwrap_or(0);
+        let refill = bytes_per_second.saturating_mul(i64::from(period_millis)) / 1000;
         ensure!(
-            max > 0 && bytes_per_second > 0 && refill_period.as_millis() as u32 > 0 && refill > 0,
+            max > 0 && bytes_per_second > 0 && period_millis > 0 && refill > 0,
             InvalidBucketConfig {
                 max,
                 bytes_per_second,
@@ -414,7 +421,7 @@ impl Bucket {
             fill: max,
             max,
             last_fill: time::Instant::now(),
-            refill_period,
+            refill_period: time::Duration::from_millis(u64::from(period_millis)),
             refill,
         })
     }
@@ -446,7 +453,7 @@ impl Bucket {
 
         self.fill = self
             .fill
-            .saturating_add(refill_periods as i64 * self.refill);
+            .saturating_add(i64::from(refill_periods).saturating_mul(self.refill));
         self.fill = std::cmp::min(self.fill, self.max);
         self.last_fill += self.refill_period * refill_periods;
     }
@@ -471,7 +478,7 @@ impl Bucket {
 
         let missing = self.fill.saturating_neg();
 
-        let periods_needed = (missing / self.refill) + 1;
+        let periods_needed = (missing / self.refill).saturating_add(1);
         let periods_needed = u32::try_from(periods_needed).unwrap_or(u32::MAX);
 
         Err(self.last_fill + periods_needed * self.refill_period)
